@@ -1,10 +1,197 @@
 /- driver ops for property C08 (model side of the correspondence) -/
 import Rsa.Core.Wire
+import Rsa.Core.Fit
 
-open Lean Rsa.Wire
+open Lean Rsa.Wire Rsa.Compare Rsa.Fit
 
 namespace Rsa.Drv.C08
 
-def handle : Handler := fun _op _j => none
+local instance : Rsa.HasSqrt Rat := ⟨fun _ => 0⟩
+
+def asSigma {β} (f : Json → R β) (j : Json) : R (SigmaK β) :=
+  if j.isNull then pure .none
+  else do
+    let a ← asArr j
+    match a with
+    | [] => pure (.vec [])
+    | e :: _ =>
+      match e with
+      | .arr _ => do let m ← asList (asList f) j; pure (.mat m)
+      | _ => do let v ← asList f j; pure (.vec v)
+
+def asMethod (j : Json) : R Method := do
+  match ← asStr j with
+  | "cosine" => pure .cosine
+  | "corr" => pure .corr
+  | "cosine_cov" => pure .cosineCov
+  | "corr_cov" => pure .corrCov
+  | m => throw s!"unknown method {m}"
+
+def asKind (j : Json) : R Kind := do
+  match ← asStr j with
+  | "fixed" => pure .fixed
+  | "select" => pure .select
+  | "weighted" => pure .weighted
+  | "interpolate" => pure .interpolate
+  | m => throw s!"unknown model class {m}"
+
+def asDesc (j : Json) : R Desc := do
+  (← asArr j).mapM (fun kv => do
+    let a ← asArr kv
+    match a with
+    | [k, v] => do pure (← asStr k, ← asList asNat v)
+    | _ => throw "descriptor entry must be [name, labels]")
+
+def ofDesc (d : Desc) : Json :=
+  ofList (fun kv => Json.arr #[Json.str kv.1, ofList ofNat kv.2]) d
+
+def asParam (j : Json) : R (Param Rat) :=
+  if j.isNull then pure .none
+  else match j with
+    | .arr _ => do pure (.vec (← asList asRat j))
+    | _ => do pure (.idx (← asNat j))
+
+def ofVecQ (v : List Rat) : Json := ofList ofRat v
+
+/-- predictions of a model object and of its dictionary round trip, exactly -/
+def predictOp (j : Json) : R Json := do
+  let kind ← fld j "kind" >>= asKind
+  let n ← fld j "n" >>= asNat
+  let rows ← fld j "obj" >>= asList (asList asRat)
+  let desc ← fld j "desc" >>= asDesc
+  let params ← fld j "params" >>= asList asParam
+  let M : Model Rat := mkModel kind "m" n rows desc
+  let M2 := fromDict (toDict M)
+  let one (M : Model Rat) (p : Param Rat) : Json :=
+    obj [("vec", ofOpt ofVecQ (predictVec M p)),
+         ("rdm", ofOpt (fun r => ofList ofVecQ r.1) (predictRdm M p)),
+         ("desc", ofOpt (fun r => ofDesc r.2) (predictRdm M p))]
+  pure (obj [("direct", ofList (one M) params),
+             ("dict", match M2 with
+               | some M' => ofList (one M') params
+               | none => Json.null),
+             ("type", Json.str (toDict M).typeName)])
+
+/-- `subsample_pattern` on one vector, exactly -/
+def subsampleOp (j : Json) : R Json := do
+  let n ← fld j "n" >>= asNat
+  let desc ← fld j "desc" >>= asList asNat
+  let value ← fld j "value" >>= asList asNat
+  let v ← fld j "v" >>= asList asRat
+  let sel := selection desc value
+  pure (obj [("sel", ofList ofNat sel), ("v", ofList (ofOpt ofRat) (subsample n sel v))])
+
+structure Common where
+  meth : Method
+  n : Nat
+  desc : List Nat
+  value : Option (List Nat)
+  basis : List (List (Option Float))
+  data : List (List (Option Float))
+  sigma : SigmaK Float
+
+def common (j : Json) : R Common := do
+  let meth ← fld j "method" >>= asMethod
+  let n ← fld j "n" >>= asNat
+  let desc ← fld j "desc" >>= asList asNat
+  let value ← asOpt (asList asNat) (fldD j "value" Json.null)
+  let basis ← fld j "basis" >>= asList (asList (asOpt asFloat))
+  let data ← fld j "data" >>= asList (asList (asOpt asFloat))
+  let sigma ← asSigma asFloat (fldD j "sigma" Json.null)
+  pure { meth, n, desc, value, basis, data, sigma }
+
+def scoreOf (c : Common) (θ : List Float) : Option Float :=
+  scoreCall c.meth c.n c.desc c.value c.basis c.data c.sigma θ
+
+/-- `fit_regress` / `fit_regress_nn` -/
+def fitOp (j : Json) : R Json := do
+  let c ← common j
+  let fitter ← fld j "fitter" >>= asStr
+  let norm ← asBool (fldD j "normalize" (Json.bool true))
+  match fitter with
+  | "regress" =>
+    match fitRegressCall c.meth c.n c.desc c.value c.basis c.data c.sigma norm with
+    | none => pure (obj [("exc", Json.str "ValueError")])
+    | some θ => pure (obj [("theta", ofList ofFloat θ), ("score", ofOpt ofFloat (scoreOf c θ))])
+  | "nn" =>
+    let eps ← fld j "eps" >>= asFloat
+    match fitRegressNNCall eps c.meth c.n c.desc c.value c.basis c.data c.sigma norm with
+    | none => pure (obj [("exc", Json.str "ValueError")])
+    | some (θ, exited) =>
+      pure (obj [("theta", ofList ofFloat θ), ("exited", Json.bool exited),
+                 ("score", ofOpt ofFloat (scoreOf c θ))])
+  | f => throw s!"unknown fitter {f}"
+
+/-- mean similarity for given parameter vectors -/
+def scoreOp (j : Json) : R Json := do
+  let c ← common j
+  let thetas ← fld j "thetas" >>= asList (asList asFloat)
+  pure (ofList (fun θ => ofOpt ofFloat (scoreOf c θ)) thetas)
+
+def unit (k i : Nat) : List Float := (List.range k).map (fun j => if j = i then 1 else 0)
+
+/-- `fit_select`: evaluations of every candidate and the first arg-max -/
+def selectOp (j : Json) : R Json := do
+  let c ← common j
+  let k := c.basis.length
+  let evals := (List.range k).map (fun i => scoreOf c (unit k i))
+  match evals.mapM id with
+  | none => pure (obj [("evals", ofList (ofOpt ofFloat) evals), ("theta", Json.null)])
+  | some ev => pure (obj [("evals", ofList ofFloat ev), ("theta", ofNat (fitSelect ev))])
+
+/-- interpolation: per segment the best convex mixture (non-negative least squares on the
+    two neighbours, renormalised to weights summing to one) and its score -/
+def interpOp (j : Json) : R Json := do
+  let c ← common j
+  let eps ← fld j "eps" >>= asFloat
+  let k := c.basis.length
+  match prepare c.meth c.n c.desc c.value c.basis c.data c.sigma with
+  | none => pure (obj [("exc", Json.str "ValueError")])
+  | some (A, D, V) =>
+    let sol := solOf c.meth V
+    let segs := (List.range (k - 1)).map (fun i =>
+      let A2 := [A.getD i [], A.getD (i + 1) []]
+      let r := fitRegressNN eps c.meth sol A2 D false
+      let x1 := r.1.getD 0 0
+      let x2 := r.1.getD 1 0
+      if 0 < x1 + x2 then
+        let w := x1 / (x1 + x2)
+        let θ := interpTheta k i w
+        (some w, scoreOf c θ)
+      else (none, none))
+    pure (ofList (fun s => obj [("w", ofOpt ofFloat s.1), ("score", ofOpt ofFloat s.2)]) segs)
+
+/-- `_nn_least_squares(A, y, V)` directly: rows of `A.T`, `y`, optional `V` -/
+def nnlsOp (j : Json) : R Json := do
+  let rows ← fld j "rows" >>= asList (asList asFloat)
+  let y ← fld j "y" >>= asList asFloat
+  let eps ← fld j "eps" >>= asFloat
+  let tol ← fld j "tol" >>= asFloat
+  let vj := fldD j "V" Json.null
+  let sol : List Float → List Float ←
+    if vj.isNull then pure id else do
+      let V ← asList (asList asFloat) vj
+      pure (solve V)
+  let G := gramOf sol rows
+  let c := rhsOf sol rows y
+  let r := nnls eps G c
+  let xs ← asList (asList asFloat) (fldD j "check" (Json.arr #[]))
+  let scale (x : List Float) : Float :=
+    let a := maxAbs c * (if maxAbs x < 1 then 1 else maxAbs x)
+    if a < 1 then 1 else a
+  pure (obj [("x", ofList ofFloat r.1), ("exited", Json.bool r.2.2),
+             ("kkt", Json.bool (kktOk (tol * scale r.1) G c r.1)),
+             ("kkt_check", ofList (fun x => Json.bool (kktOk (tol * scale x) G c x)) xs)])
+
+def handle : Handler := fun op j =>
+  match op with
+  | "c08.predict" => some (predictOp j)
+  | "c08.subsample" => some (subsampleOp j)
+  | "c08.fit" => some (fitOp j)
+  | "c08.score" => some (scoreOp j)
+  | "c08.select" => some (selectOp j)
+  | "c08.interp" => some (interpOp j)
+  | "c08.nnls" => some (nnlsOp j)
+  | _ => none
 
 end Rsa.Drv.C08
